@@ -99,48 +99,73 @@ pub proof fn lemma_forward_step(ms: Seq<DltMessage>, sel: Seq<bool>, outs: Seq<D
 //@|    let ghost ms0 = inflow.rem();
 //@|    let ghost log0 = outflow.log();
 //@|    let ghost acc = all_accept(plugins_active@);
-//@|    let ghost mut k: int = 0;
+//@|    let ghost mut k: int = 0;                     // messages accounted for
 //@|    let ghost mut sel: Seq<bool> = Seq::empty();
 //@|    let ghost mut outs: Seq<DltMessage> = Seq::empty();
+//@|    // the message of the previous iteration is accounted for at the start of the next one (or after the loop): the proof then
+//@|    // does not depend on how the end of the body is written (`if forward_msg { send }`, `if !forward_msg { continue; } send`)
+//@|    let ghost mut pend: bool = false;
+//@|    let ghost mut fw_p: bool = false;
+//@|    let ghost mut m_p: DltMessage = arbitrary();
+//@|    let ghost mut lg_p: Seq<DltMessage> = Seq::empty();
 //@|    proof { assert(outflow.log() =~= log0 + outs); }
 //@   loop 1 `loop`
 //@|    invariant
-//@|        0 <= k <= ms0.len(), inflow.rem() == ms0.skip(k), log0 == old(outflow).log(),
-//@|        outflow.log() == log0 + outs, // O:driver.inv.log
+//@|        0 <= k, k + (if pend { 1int } else { 0int }) <= ms0.len(), inflow.rem() == ms0.skip(k + (if pend { 1int } else { 0int })), log0 == old(outflow).log(),
+//@|        !pend ==> outflow.log() == log0 + outs, // O:driver.inv.log
+//@|        pend ==> lg_p == log0 + outs && core_same(ms0[k], m_p) && (fw_p ==> outflow.log() == lg_p.push(m_p)) && (!fw_p ==> outflow.log() == lg_p), // O:driver.inv.once (the current message was forwarded at most once, as it left the plugins)
 //@|        forwarded_ok(ms0, sel, outs, k), // O:driver.inv.subsequence
-//@|        acc ==> all_accept(plugins_active@) && outs.len() == k, // O:driver.inv.nothing_removed
+//@|        acc ==> all_accept(plugins_active@) && outs.len() == k && (pend ==> fw_p), // O:driver.inv.nothing_removed
 //@|    ensures
-//@|        k == ms0.len(), outflow.log() == log0 + outs, forwarded_ok(ms0, sel, outs, k), acc ==> outs.len() == k,
-//@|    decreases ms0.len() - k,
-//@   hint before `let mut forward_msg = true;`
+//@|        k + (if pend { 1int } else { 0int }) == ms0.len(),
+//@|    decreases ms0.len() - (k + (if pend { 1int } else { 0int })),
+//@   hint loopstart 1
+//@|    proof {
+//@|        if pend {
+//@|            if fw_p { assert(outflow.log() =~= log0 + outs.push(m_p)); }
+//@|            lemma_forward_step(ms0, sel, outs, k, fw_p, m_p);
+//@|            sel = sel.push(fw_p);
+//@|            if fw_p { outs = outs.push(m_p); }
+//@|            k = k + 1;
+//@|            pend = false;
+//@|        }
+//@|    }
 //@|    let ghost m_in = msg;
+//@|    let ghost mut rejected: bool = false;   // some plugin returned false for this message
 //@|    proof {
 //@|        assert(m_in == ms0[k]);
 //@|        assert(ms0.skip(k).skip(1) =~= ms0.skip(k + 1));
 //@|    }
+//@   hint before `forward_msg = false;`
+//@|    proof { rejected = true; }
 //@   loop 2 `plugins_active`
 //@|    invariant
 //@|        vx_i <= plugins_active@.len(),
 //@|        core_same(m_in, msg), // O:driver.inv.core
 //@|        acc ==> all_accept(plugins_active@),
 //@|        acc ==> forward_msg, // O:driver.inv.kept (no plugin of an all-accepting chain makes the driver drop the message)
+//@|        !forward_msg ==> rejected, // O:driver.inv.dropped_only_if_rejected (a message is dropped only because one of its plugins returned false for it)
 //@|    ensures
-//@|        core_same(m_in, msg), acc ==> all_accept(plugins_active@) && forward_msg,
+//@|        core_same(m_in, msg), acc ==> all_accept(plugins_active@) && forward_msg, !forward_msg ==> rejected,
 //@|    decreases plugins_active@.len() - vx_i,
 //@   hint before `forward_msg {`
-//@|    let ghost m_out = msg;
-//@|    let ghost lg = outflow.log();
-//@   hint loopend 1
 //@|    proof {
-//@|        // whatever the code did with the message: the log either is unchanged (dropped) or has grown by exactly this message
-//@|        let sent = outflow.log().len() != lg.len();
-//@|        assert(outflow.log() == lg || outflow.log() == lg.push(m_out)); // O:driver.once (each message is forwarded at most once, as it left the plugins)
-//@|        if sent { assert(outflow.log() =~= log0 + outs.push(m_out)); }
-//@|        assert(acc ==> sent); // O:driver.kept (accepted by every plugin: forwarded)
-//@|        lemma_forward_step(ms0, sel, outs, k, sent, m_out);
-//@|        sel = sel.push(sent);
-//@|        if sent { outs = outs.push(m_out); }
-//@|        k = k + 1;
+//@|        pend = true;
+//@|        fw_p = forward_msg;
+//@|        m_p = msg;
+//@|        lg_p = outflow.log();
+//@|    }
+//@   hint before `^Ok(plugins_active)`
+//@|    proof {
+//@|        if pend {
+//@|            if fw_p { assert(outflow.log() =~= log0 + outs.push(m_p)); }
+//@|            lemma_forward_step(ms0, sel, outs, k, fw_p, m_p);
+//@|            sel = sel.push(fw_p);
+//@|            if fw_p { outs = outs.push(m_p); }
+//@|            k = k + 1;
+//@|            pend = false;
+//@|        }
+//@|        assert(k == ms0.len());
 //@|    }
 //@ end
 // ---- end of units/plugindriver/part.rs ----
